@@ -1,6 +1,7 @@
 package main
 
 import (
+	"verif/internal/keys"
 	"bytes"
 	"crypto/sha256"
 	"encoding/hex"
@@ -93,12 +94,37 @@ func genESLStream(rng *rand.Rand, maxLists int) (stream []byte, class string, en
 				cnt = 1000 + rng.Intn(1200)
 			}
 			l.SigSize = uint32(16 + dl)
+			realCert := rng.Intn(5) == 0
+			var certBytes []byte
+			if realCert {
+				// what enrolment tools put there: a DER certificate — or, skipping the conversion, its PEM text
+				c := keys.Simple(keys.Get(rng.Intn(4)), "esl", int64(1+rng.Intn(3)))
+				certBytes = c.Raw
+				if rng.Intn(2) == 0 {
+					certBytes = keys.CertPEM(c)
+					if rng.Intn(2) == 0 {
+						certBytes = append([]byte("Bag Attributes\n    friendlyName: x\n"), certBytes...)
+					}
+				}
+				dl = len(certBytes)
+				l.SigSize = uint32(16 + dl)
+				if cnt == 0 {
+					cnt = 1
+				}
+			}
 			for c := 0; c < cnt; c++ {
 				d := make([]byte, dl)
 				rng.Read(d)
+				if realCert {
+					copy(d, certBytes)
+				}
 				l.Entries = append(l.Entries, refesl.Entry{Owner: owner(), Data: d})
 			}
-			cls = append(cls, fmt.Sprintf("x509/%d×%s", cnt, sizeClass(dl)))
+			if realCert {
+				cls = append(cls, fmt.Sprintf("x509-certificate-or-pem/%d", cnt))
+			} else {
+				cls = append(cls, fmt.Sprintf("x509/%d×%s", cnt, sizeClass(dl)))
+			}
 		case k < 8:
 			l.Type = refesl.SHA256Type
 			cnt := rng.Intn(17)
